@@ -35,13 +35,25 @@ def load_known():
     return out
 
 
-def pmap(fn, items, jobs=None):
+def _winit():
+    import faulthandler, signal
+    faulthandler.register(signal.SIGUSR1, all_threads=True)
+
+
+PMAP_TIMEOUT = int(os.environ.get("VERIF_PMAP_TIMEOUT", "7200"))
+
+
+def pmap(fn, items, jobs=None, timeout=None):
     jobs = jobs or NCPU
     if jobs <= 1 or len(items) <= 1:
         return [fn(x) for x in items]
     ctx = multiprocessing.get_context("fork")
-    with ctx.Pool(min(jobs, len(items))) as pool:
-        return pool.map(fn, items, chunksize=1)
+    with ctx.Pool(min(jobs, len(items)), initializer=_winit) as pool:
+        r = pool.map_async(fn, items, chunksize=1)
+        try:
+            return r.get(timeout=timeout or PMAP_TIMEOUT)
+        except multiprocessing.TimeoutError:
+            raise HarnessError("worker pool did not finish within %d s (inconclusive)" % (timeout or PMAP_TIMEOUT))
 
 
 class Check:
